@@ -29,6 +29,7 @@ from ._storage import (
     clear_treeflatten_memo,
     clear_treepath_memo,
     get_shape_memo,
+    get_treeflatten_memo,
     set_shape_memo,
     set_treeflatten_memo,
     set_treepath_memo,
@@ -121,11 +122,15 @@ class _MetaPyTree(type):
 
             is_flatten_leaftype = is_check_leaftype = is_leaftype
 
+        # This function is re-entrant (a leaf type may itself be a `PyTree[...]`), so only
+        # clear the flag if it wasn't already set by an enclosing flatten.
+        was_flattening = get_treeflatten_memo()
         set_treeflatten_memo()
         try:
             leaves, structure = jtu.tree_flatten(obj, is_leaf=is_flatten_leaftype)
         finally:
-            clear_treeflatten_memo()
+            if not was_flattening:
+                clear_treeflatten_memo()
         if cls.structure is not None:
             if cls.structure.isidentifier():
                 try:
@@ -183,15 +188,19 @@ class _MetaPyTree(type):
                     if structure != named_structure:
                         return False
 
-        try:
-            for leaf_index, leaf in enumerate(leaves):
-                if cls.structure is not None:
-                    set_treepath_memo(leaf_index, cls.structure)
+        for leaf_index, leaf in enumerate(leaves):
+            if cls.structure is None:
+                # No `?` annotations can refer to us, so leave the treepath memo alone: it
+                # may belong to a structured `PyTree[..., "T"]` that we are nested inside.
                 if not is_check_leaftype(leaf):
                     return False
-                clear_treepath_memo()
-        finally:
-            clear_treepath_memo()
+            else:
+                set_treepath_memo(leaf_index, cls.structure)
+                try:
+                    if not is_check_leaftype(leaf):
+                        return False
+                finally:
+                    clear_treepath_memo()
         return True
 
     # Can't return a generic (e.g. _FakePyTree[item]) because generic aliases don't do
